@@ -1,11 +1,146 @@
-// Package c07 is the correspondence/oracle harness for property C07.
+// Package c07 is the correspondence/oracle harness for property C07:
+// "Character codes decode to the Unicode the font specifies".
+//
+// Wire format (harness -> Lean driver, one op per line; bytes are lower-case hex, "-" = empty;
+// scalar lists are lower-case hex numbers separated by spaces (results) or commas (inside a
+// field), "-" = empty list):
+//
+//	c07.dec <nameHex> <byte>            -> rune value of GetEncoding(name).Decode(byte), decimal
+//	c07.enc <nameHex> <dataHex>         -> <Name()> <scalars of DecodeString>
+//	c07.ref <tableVar> <byte>           -> allowed scalars of the independent reference (comma list)
+//	c07.u16be|c07.u16le <dataHex>       -> scalars of font.DecodeUTF16BE/LE
+//	c07.cu16 <dataHex>                  -> ok <scalars> | err   (decodeUTF16BE of cmap.go)
+//	c07.h2u <hexOfToken>                -> ok <scalars> | err   (hexToUnicode)
+//	c07.hex32 <hexOfToken>              -> ok <decimal> | err   (parseHexToUint32)
+//	c07.cmapstate <programHex>          -> bw=.. abw=.. chars=code:scalars;.. ranges=lo:hi:start:units;..
+//	c07.cmap <programHex> <codesHex>    -> scalars of ParseToUnicodeCMap(program).LookupString(codes)
+//	c07.cmapw <programHex> <w> <codes>  -> scalars of lookupStringWithWidth
+//	c07.lookup <programHex> <code>      -> scalars of Lookup(code)
+//	c07.font <programHex|~> <encNameHex> <dataHex> <nfc table pre>post;..|~>
+//	                                    -> scalars of (*Font).DecodeString(data)
+//	c07.nofont <dataHex>                -> scalars of the fragment text of `<data> Tj` with no font
+//
+// An implementation result that is not valid UTF-8 is written as `invalid-utf8 <hex>`.
 package c07
 
-import "verifharness/hx"
+import (
+	"encoding/hex"
+	"fmt"
+	"strconv"
+	"strings"
+	"unicode/utf8"
+
+	"verifharness/hx"
+)
 
 func init() { hx.Register("C07", Run, Replay) }
 
-// Run is not built yet for this property.
-func Run(c *hx.Ctx) { c.Note("C07: harness not built") }
+func Run(c *hx.Ctx) {
+	c.Rep.Rule = "exhaustive: 256 codes x 6 named encodings (+ unknown names) against independent reference tables and x/text charmaps; " +
+		"generated: code->text maps (1-300 entries, code width 1-4, targets ASCII/BMP/ligature/multi-char/combining/astral) rendered by an " +
+		"independent CMap writer under every formatting policy (bfchar lines / one line / bfrange offset / bfrange array / arrays spanning lines; LF, CRLF), " +
+		"mutated (malformed) programs, scalar strings through UTF-16BE/LE (all scalars swept), byte strings through (*Font).DecodeString and text.Extractor, one-page PDFs (TrueType font with /Encoding and /ToUnicode) through tabula.Open(f).Fragments(). " +
+		"non-trivial = the decoded result is non-empty"
+	runEncodings(c)
+	runUTF16(c)
+	runTokens(c)
+	runCMaps(c)
+	runMalformed(c)
+	runFonts(c)
+	runPDF(c)
+	c.Rep.Exhaustive = true
+}
 
-func Replay(c *hx.Ctx, kase map[string]interface{}) {}
+// ---- helpers --------------------------------------------------------------------
+
+func scalarsSep(s string, sep string) string {
+	if s == "" {
+		return "-"
+	}
+	var sb strings.Builder
+	first := true
+	for _, r := range s {
+		if !first {
+			sb.WriteString(sep)
+		}
+		first = false
+		sb.WriteString(strconv.FormatInt(int64(r), 16))
+	}
+	return sb.String()
+}
+
+// out renders an implementation string result for the impl stream.
+func out(s string) string {
+	if !utf8.ValidString(s) {
+		return "invalid-utf8 " + hx.HexS(s)
+	}
+	return scalarsSep(s, " ")
+}
+
+func runesC(rs []rune) string {
+	if len(rs) == 0 {
+		return "-"
+	}
+	parts := make([]string, len(rs))
+	for i, r := range rs {
+		parts[i] = strconv.FormatInt(int64(r), 16)
+	}
+	return strings.Join(parts, ",")
+}
+
+func unhex(v interface{}) []byte {
+	s, _ := v.(string)
+	if s == "" || s == "-" {
+		return nil
+	}
+	b, _ := hex.DecodeString(s)
+	return b
+}
+
+func kase(kind string, kv ...interface{}) map[string]interface{} {
+	m := map[string]interface{}{"kind": kind}
+	for i := 0; i+1 < len(kv); i += 2 {
+		m[kv[i].(string)] = kv[i+1]
+	}
+	return m
+}
+
+// checkOutput applies the output invariant of the property to a text the library returned:
+// valid UTF-8 always; NFC where the library normalises (Font.DecodeString, fragment texts) —
+// the low-level decoders (Encoding.DecodeString, DecodeUTF16BE/LE, CMap.LookupString) return the
+// specified code points unnormalised, by design.
+func checkOutput(c *hx.Ctx, where string, s string, k map[string]interface{}, nfc bool) {
+	c.Check("C07/output-invalid-utf8", utf8.ValidString(s), k, func() string {
+		return fmt.Sprintf("%s returned invalid UTF-8 %q", where, s)
+	})
+	if nfc && utf8.ValidString(s) {
+		c.Check("C07/output-not-nfc", isNFC(s), k, func() string {
+			return fmt.Sprintf("%s returned text that is not in NFC: %q (%s)", where, s, scalarsSep(s, " "))
+		})
+	}
+}
+
+// Replay re-runs one recorded failing case on the implementation.
+func Replay(c *hx.Ctx, k map[string]interface{}) {
+	kind, _ := k["kind"].(string)
+	switch kind {
+	case "enc":
+		name, _ := k["name"].(string)
+		b, _ := k["byte"].(float64)
+		encByteOracles(c, name, int(b))
+	case "utf16":
+		replayUTF16(c, k)
+	case "cmap":
+		replayCMap(c, k)
+	case "malformed":
+		malformedCase(c, unhex(k["prog"]), unhex(k["data"]), 0, false)
+	case "font":
+		replayFont(c, k)
+	case "nofont":
+		noFontCase(c, unhex(k["data"]), false)
+	case "pdf":
+		replayPDF(c, k)
+	default:
+		c.Note("C07 replay: unknown case kind %q", kind)
+	}
+}
